@@ -50,3 +50,17 @@ package webrtc
 //@ ensures old(s.packetizer) == nil ==> ghost(packetizeCalls) == old(ghost(packetizeCalls)) && samebits(s.remainder, old(s.remainder))
 //@ loop 0 invariant ghost(seqSkips) == old(ghost(seqSkips)) + uint64(i) && i <= sample.PrevDroppedPackets && ghost(sampleSkips) == old(ghost(sampleSkips)) && ghost(packetizeCalls) == old(ghost(packetizeCalls)) && samebits(s.remainder, old(s.remainder))
 //@ loop 1 invariant ghost(packetizeCalls) == old(ghost(packetizeCalls)) + 1
+
+// The sequencer WriteSample steps for dropped packets is the one the packetizer numbers its
+// packets with: both are set once, by the first Bind, and the packetizer is built on that
+// sequencer and on the negotiated clock rate; a later Bind (the track added to another
+// connection) changes neither.
+//@ field TrackLocalStaticSample.sequencer props C28 writers (*TrackLocalStaticSample).Bind
+//@ field TrackLocalStaticSample.packetizer props C28 writers (*TrackLocalStaticSample).Bind
+//@ field TrackLocalStaticSample.clockRate props C28 writers (*TrackLocalStaticSample).Bind
+//@ func (*TrackLocalStaticSample).Bind
+//@ props C28
+//@ nosafety
+//@ requires s != nil && s.rtpTrack != nil
+//@ atcall rtp.NewPacketizerWithOptions assert callarg2 == s.sequencer && callarg3 == codec.ClockRate && old(s.packetizer) == nil
+//@ ensures old(s.packetizer) != nil ==> s.packetizer == old(s.packetizer) && s.sequencer == old(s.sequencer) && samebits(s.clockRate, old(s.clockRate))
